@@ -560,6 +560,17 @@ def lyapunov_monitors(ctx, recipe, kkt, xs, states, fobjs, b):
             if np.isfinite(Fk) and Fk - Fs > bound + tol(bound):
                 return {"quantity": "FISTA rate F(x_k) - F(x*) <= 2 L |x0 - x*|^2 / (k+1)^2", "k": k + 1, "gap": Fk - Fs, "bound": bound}
         ctx.count("monotone:fista-rate")
+        # the potential E = 2 t (t-1) (F(x) - F*) + L |t v - (t-1) x - x*|^2 of C03_fista_potential never increases
+        def E(st, Fx):
+            t = float(st["t"])
+            gap = 0.0 if t == 1.0 else 2.0 * t * (t - 1.0) * (Fx - Fs)
+            return gap + L * _sq(t * A_(st["v"]) - (t - 1.0) * A_(st["x"]) - xs)
+
+        Es = [E(states[0], 0.0)] + [E(states[k + 1], fobjs[k]) for k in range(len(fobjs)) if np.isfinite(fobjs[k])]
+        for k in range(1, len(Es)):
+            if Es[k] > Es[k - 1] + tol(Es[k - 1]):
+                return {"quantity": "FISTA potential 2t(t-1)(F(x)-F*) + L|t v-(t-1)x-x*|^2", "k": k, "before": Es[k - 1], "after": Es[k]}
+        ctx.count("monotone:fista-potential")
     return None
 
 
